@@ -88,8 +88,9 @@ type RoundTripper struct {
 
 	newClient func(quic.EarlyConnection) singleRoundTripper
 
-	clients   map[string]*roundTripperWithCount
-	transport *quic.Transport
+	clients     map[string]*roundTripperWithCount
+	transportMu sync.Mutex // guards transport (created lazily by concurrent dials)
+	transport   *quic.Transport
 }
 
 var (
@@ -302,19 +303,23 @@ func (r *RoundTripper) dial(ctx context.Context, hostname string) (quic.EarlyCon
 
 	dial := r.Dial
 	if dial == nil {
+		r.transportMu.Lock()
 		if r.transport == nil {
 			udpConn, err := net.ListenUDP("udp", nil)
 			if err != nil {
+				r.transportMu.Unlock()
 				return nil, nil, err
 			}
 			r.transport = &quic.Transport{Conn: udpConn}
 		}
+		tr := r.transport
+		r.transportMu.Unlock()
 		dial = func(ctx context.Context, addr string, tlsCfg *tls.Config, cfg *quic.Config) (quic.EarlyConnection, error) {
 			udpAddr, err := net.ResolveUDPAddr("udp", addr)
 			if err != nil {
 				return nil, err
 			}
-			return r.transport.DialEarly(ctx, udpAddr, tlsCfg, cfg)
+			return tr.DialEarly(ctx, udpAddr, tlsCfg, cfg)
 		}
 	}
 
@@ -345,6 +350,8 @@ func (r *RoundTripper) Close() error {
 		}
 	}
 	r.clients = nil
+	r.transportMu.Lock()
+	defer r.transportMu.Unlock()
 	if r.transport != nil {
 		if err := r.transport.Close(); err != nil {
 			return err
